@@ -27,11 +27,14 @@ type callRes struct {
 	started int64
 }
 
+//go:noinline
+func c26Call(id int64, f func()) { f() }
+
 // C26 — Concurrent use of a UConn is race-free, deadlock-free and consistent.
 func TestC26(t *testing.T) {
-	r := mon.New("C26", "per run one reader, one writer, 2-6 concurrent Handshake/HandshakeContext callers with their own contexts, Close/CloseWrite and cancellations at PRNG-chosen moments, random delays at every Read/Write of the transport (real suspension points) and at the uTLS handshake yield points (hook H10); scenarios: normal server, server that stalls (no I/O deadline: cancellation is the only way out), cancellation after return. Oracle: zero race-detector reports; every call returns; each handshake caller returns nil only if the connection reports HandshakeComplete, or the shared handshake error, or its own context's error (then the connection is closed); cancelling a context after its call returned leaves the connection usable. distinct = interleaving signatures (order of call returns and tap events)")
+	r := mon.New("C26", "per run one reader, one writer, 2-6 concurrent Handshake/HandshakeContext callers with their own contexts, Close/CloseWrite and cancellations at PRNG-chosen moments, random delays at every Read/Write of the transport (real suspension points) and at the uTLS handshake yield points (hook H10); scenarios: normal server, server that stalls (no I/O deadline: cancellation is the only way out), cancellation after return, benign runs without any I/O deadline (explicit handshake callers, or only Read and Write starting the handshake implicitly) in which every call must return successfully and the echo must complete. Oracle: zero race-detector reports; every call returns; each handshake caller returns nil only if the connection reports HandshakeComplete, or the shared handshake error, or its own context's error (then the connection is closed); cancelling a context after its call returned leaves the connection usable. distinct = interleaving signatures (order of call returns and tap events)")
 	defer r.Finish(t)
-	n := mon.Pick(240, 8000)
+	n := mon.Pick(500, 8000)
 	ids := []tls.ClientHelloID{tls.HelloChrome_133, tls.HelloFirefox_120, tls.HelloGolang, tls.HelloChrome_102, tls.HelloIOS_14, tls.HelloRandomizedALPN}
 	var sigMu sync.Mutex
 	sigs := map[string]bool{}
@@ -45,7 +48,10 @@ func TestC26(t *testing.T) {
 			defer wgAll.Done()
 			defer func() { <-sem }()
 			rg := Sub("C26", i)
-			scenario := []string{"normal", "normal", "normal", "stalled", "cancel-after", "close-race"}[i%6]
+			// nodeadline / implicit: benign server, no cancellation, no Close and NO I/O deadline, so
+			// nothing but the code's own progress can make the calls return; in "implicit" nobody
+			// calls Handshake explicitly (Read and Write start it)
+			scenario := []string{"normal", "normal", "nodeadline", "stalled", "cancel-after", "close-race", "normal", "implicit"}[i%8]
 			id := ids[rg.Intn(len(ids))]
 			c, s, tap := peer.Pipe()
 			var seq int64
@@ -76,7 +82,7 @@ func TestC26(t *testing.T) {
 					time.Sleep(d)
 				}
 			}
-			if scenario != "stalled" {
+			if scenario != "stalled" && scenario != "nodeadline" && scenario != "implicit" {
 				dl := time.Now().Add(6 * time.Second)
 				c.SetDeadline(dl)
 				s.SetDeadline(dl)
@@ -123,6 +129,9 @@ func TestC26(t *testing.T) {
 				close(srvDone)
 			}
 			nCallers := 2 + rg.Intn(5)
+			if scenario == "implicit" {
+				nCallers = 0
+			}
 			results := make([]*callRes, 0, nCallers+3)
 			var resMu sync.Mutex
 			var wg sync.WaitGroup
@@ -131,7 +140,8 @@ func TestC26(t *testing.T) {
 				cr := &callRes{name: name, started: tick("start:" + name)}
 				go func() {
 					defer wg.Done()
-					err, cerr := f()
+					var err, cerr error
+					c26Call(int64(i)+1, func() { err, cerr = f() })
 					cr.err, cr.ctxErr = err, cerr
 					cr.retAt = tick("ret:" + name)
 					resMu.Lock()
@@ -151,6 +161,9 @@ func TestC26(t *testing.T) {
 				}
 				if scenario == "cancel-after" {
 					mode = 3
+				}
+				if scenario == "nodeadline" {
+					mode = []int{0, 3}[rg.Intn(2)]
 				}
 				switch mode {
 				case 0:
@@ -179,7 +192,22 @@ func TestC26(t *testing.T) {
 			}
 			payload := randBytes(rg, 1+rg.Intn(3000))
 			var readGot bytes.Buffer
-			if scenario != "stalled" {
+			if scenario == "implicit" || (scenario == "nodeadline" && rg.Intn(2) == 0) {
+				// reader first, the writer a little later: the reader tends to own the handshake
+				launch("reader", func() (error, error) {
+					buf := make([]byte, 1024)
+					for readGot.Len() < len(payload) {
+						n, err := u.Read(buf)
+						readGot.Write(buf[:n])
+						if err != nil {
+							return err, nil
+						}
+					}
+					return nil, nil
+				})
+				wd := time.Duration(rg.Intn(3000)) * time.Microsecond
+				launch("writer", func() (error, error) { time.Sleep(wd); _, e := u.Write(payload); return e, nil })
+			} else if scenario != "stalled" {
 				launch("writer", func() (error, error) { _, e := u.Write(payload); return e, nil })
 				launch("reader", func() (error, error) {
 					buf := make([]byte, 1024)
@@ -215,6 +243,18 @@ func TestC26(t *testing.T) {
 			sig := map[string]string{"scenario": scenario}
 			rep := map[string]any{"case": i, "scenario": scenario, "id": id.Str(), "callers": nCallers}
 			if hang {
+				// bounded progress: only goroutines that are parked count as hung; if one of this
+				// run's calls is running / runnable the machine is just slow
+				states := goroutineStatesOf(fmt.Sprintf("props.c26Call(0x%x,", int64(i)+1))
+				rep["goroutine_states"] = states
+				for _, st := range states {
+					if !parkedState(st) {
+						r.Inconclusive(fmt.Sprintf("C26 run %d (%s): a call did not return within %s but its goroutine is %q (machine load)", i, scenario, c26Bound, st))
+						c.Close()
+						s.Close()
+						return
+					}
+				}
 				seqMu.Lock()
 				rep["trace"] = append([]string(nil), trace...)
 				seqMu.Unlock()
@@ -272,6 +312,21 @@ func TestC26(t *testing.T) {
 							r.Violation(sig, fmt.Sprintf("%s returned %v although the handshake completed and no caller was cancelled", cr.name, cr.err), rep)
 						}
 					}
+				}
+			}
+			if scenario == "nodeadline" || scenario == "implicit" {
+				// nothing was cancelled or closed and the server echoes: every call must have succeeded
+				for _, cr := range results {
+					if cr.err != nil {
+						sig["kind"] = "benign_run_call_failed"
+						r.Violation(sig, fmt.Sprintf("scenario %s: %s returned %v although nothing was cancelled or closed and the server echoes", scenario, cr.name, cr.err), rep)
+					}
+				}
+				if !bytes.Equal(readGot.Bytes(), payload) {
+					sig["kind"] = "benign_run_echo_incomplete"
+					r.Violation(sig, fmt.Sprintf("scenario %s: wrote %d bytes, read back %d", scenario, len(payload), readGot.Len()), rep)
+				} else {
+					r.Count("benign_nodeadline_runs_ok", 1)
 				}
 			}
 			// data integrity of what was read
@@ -343,4 +398,5 @@ func TestC26(t *testing.T) {
 	r.Floor("distinct_interleavings", 20)
 	r.Floor("own_context_errors", 10)
 	r.Floor("cancel_after_return_ok", 5)
+	r.Floor("benign_nodeadline_runs_ok", int64(n/8))
 }
